@@ -182,4 +182,17 @@ theorem refbundle_eq_id (b : Bundle) (pos reason now : Nat) (hf : b.primary.isFr
 
 example : Identity k1a ≠ Identity k1b ∧ k1a.id = k1b.id := by decide
 
+
+/-- **C13 (reference of a report about any bundle or fragment).** A status report whose source,
+    creation time, sequence number and fragment fields are those of a bundle — fragment length
+    present exactly for fragments — refers to it by exactly the bundle's ID (first fragments,
+    offset 0, included). -/
+theorem refbundle_eq_id_general (b : Bundle) (r : StatusReport)
+    (hs : r.source = b.primary.src) (ht : r.ts = b.primary.ts) (hq : r.seq = b.primary.seq)
+    (hf : (decide (r.fragLen > 0)) = b.primary.isFragment) (ho : r.fragOff = b.primary.fragOff) :
+    r.refbundle = b.id := by
+  unfold StatusReport.refbundle Bundle.id
+  rw [hs, ht, hq, ho]
+  cases hfr : b.primary.isFragment <;> simp_all
+
 end Bp7.C13
